@@ -21,6 +21,10 @@ pub struct DocCfg {
     pub nested: bool,    // nested sub arrays and meta objects
     pub bang_ids: bool,  // identifiers starting with '!' (legal per C04)
     pub root_ids: bool,  // the root object may carry its own `_id` (and change it)
+    /// some array elements are characters: objects whose whole content is the reserved field `#`
+    /// with a character code of up to 8 hexadecimal digits, which the library stores in the revision
+    /// identifier itself (outside C04's document family, inside every other property's)
+    pub chars: bool,
 }
 
 impl DocCfg {
@@ -34,6 +38,7 @@ impl DocCfg {
             nested: rng.chance(1, 2),
             bang_ids: false,
             root_ids: false,
+            chars: false,
         }
     }
 }
@@ -144,7 +149,12 @@ fn fields(rng: &mut Rng, cfg: &DocCfg) -> Map<String, Value> {
     m
 }
 
+const CHAR_CODES: [&str; 8] = ["6f", "41", "0", "1f600", "ffffffff", "e9", "0041", "20"];
+
 fn new_elem(rng: &mut Rng, cfg: &DocCfg, id: &str) -> Value {
+    if cfg.chars && rng.chance(1, 3) {
+        return json!({"_id": id, "#": *rng.pick(&CHAR_CODES)});
+    }
     let mut m = fields(rng, cfg);
     m.insert("_id".to_string(), Value::from(id));
     Value::Object(m)
@@ -213,9 +223,30 @@ pub fn initial(rng: &mut Rng, cfg: &DocCfg) -> Value {
 }
 
 /// One random edit; returns a short label for traces.
+/// A character is its code and nothing else: whatever an edit added to one is taken away again.
+fn normalize_chars(v: &mut Value) {
+    match v {
+        Value::Object(o) => {
+            if o.contains_key("#") {
+                o.retain(|k, _| k == "#" || k == "_id");
+            }
+            for (k, x) in o.iter_mut() {
+                if k.ends_with(FLAT) {
+                    normalize_chars(x);
+                }
+            }
+        }
+        Value::Array(a) => a.iter_mut().for_each(normalize_chars),
+        _ => {}
+    }
+}
+
 pub fn mutate(rng: &mut Rng, cfg: &DocCfg, doc: &mut Value) -> &'static str {
     for _ in 0..8 {
         if let Some(l) = try_mutate(rng, cfg, doc) {
+            if cfg.chars {
+                normalize_chars(doc);
+            }
             return l;
         }
     }
@@ -337,6 +368,16 @@ fn try_mutate(rng: &mut Rng, cfg: &DocCfg, doc: &mut Value) -> Option<&'static s
             let a = &mut arrs[i];
             let pos = rng.below(a.len());
             let o = a[pos].as_object_mut()?;
+            if o.contains_key("#") {
+                // a character changes into another character, or into an ordinary object
+                if rng.chance(1, 4) {
+                    o.remove("#");
+                    o.insert(f.to_string(), v);
+                } else {
+                    o.insert("#".to_string(), Value::from(*rng.pick(&CHAR_CODES)));
+                }
+                return Some("edit-char");
+            }
             if del {
                 o.remove(f);
             } else {
